@@ -848,6 +848,23 @@ fn check_net_grads(
             }
         }
     }
+    // third pass, networks with skip connections: the public map `connect` is assigned directly (the first
+    // connection removed; and all connections inserted into a network built without them) - forward and backward
+    // pass both follow the map as it is NOW, so the gradients are still the derivative of what predict computes
+    if !spec.connect.is_empty() && spec.loops.is_empty() {
+        if let Ok(mut n3) = catch_unwind(AssertUnwindSafe(|| spec.build())) {
+            let mut m = n3.connect.clone();
+            m.remove(&spec.connect[0].1);
+            n3.connect = m;
+            let _ = check_net_grads_on(f, rng, spec, &mut n3, x, y, kmax, key_of, " [after `connect` was assigned directly: the first connection removed]");
+        }
+        let mut bare = spec.clone();
+        bare.connect = vec![];
+        if let Ok(mut n4) = catch_unwind(AssertUnwindSafe(|| bare.build())) {
+            n4.connect = spec.connect.iter().map(|&(from, into)| (into, from)).collect();
+            let _ = check_net_grads_on(f, rng, spec, &mut n4, x, y, kmax, key_of, " [built without connections, `connect` filled directly]");
+        }
+    }
     true
 }
 
